@@ -515,6 +515,9 @@ pub fn main(a: &Args) {
         let g = if i % 25 == 7 {
             rep.count("big_family_grammars", 1);
             gen_big(&mut rng)
+        } else if i % 12 == 5 {
+            rep.count("lists_family_grammars", 1);
+            gen_lists(&mut rng)
         } else if i % 6 == 3 {
             rep.count("context_family_grammars", 1);
             gen_ctx(&mut rng)
